@@ -138,11 +138,15 @@ func c18Do(v *vCore, kind string, w *c18Wrap, user string) (*logical.Response, e
 }
 
 // c18Residue checks that token id record, accessor, lease and cubbyhole of the wrapping token are gone.
-func c18Residue(v *vCore, r *kit.Result, caseID string, salted, cubby, accessorSalted string, wit any) {
+func c18Residue(v *vCore, r *kit.Result, caseID string, salted, cubby, accessorSalted string, wit any, f31 bool) {
 	for _, k := range v.RawKeys("") {
 		switch {
 		case strings.HasSuffix(k, "sys/token/id/"+salted):
-			r.Violate("C18-residue-token", caseID, "token id record of the used wrapping token remains: "+k, wit)
+			class := "C18-residue-token"
+			if f31 {
+				class = "C18-F31-use-count-write-after-revoker-delete-resurrects-token-record"
+			}
+			r.Violate(class, caseID, "token id record of the used wrapping token remains: "+k, wit)
 		case accessorSalted != "" && strings.HasSuffix(k, "sys/token/accessor/"+accessorSalted):
 			r.Violate("C18-residue-accessor", caseID, "accessor index of the used wrapping token remains", wit)
 		case cubby != "" && strings.Contains(k, "/"+cubby+"/"):
@@ -210,8 +214,11 @@ func c18Case(t *testing.T, v *vCore, r *kit.Result, rng *kit.Rand, caseID, wkind
 				mu.Unlock()
 			}})
 		}
+		// Gate points: the wrapping token's own record, its lease and its cubbyhole. Keeping the
+		// alphabet this small lets the bounded exploration reach every ordering of the
+		// check-and-consume steps of the competing requests within the quick budget.
 		sched = v.Probe.RunGated(reqs, pol, kit.GateOpts{Filter: func(e kit.Event) bool {
-			return strings.HasPrefix(e.Key, "sys/token/") || strings.HasPrefix(e.Key, "sys/expire/") || strings.HasPrefix(e.Key, "logical/")
+			return strings.Contains(e.Key, salted) || (cubby != "" && strings.Contains(e.Key, "/"+cubby+"/"))
 		}})
 		if sched.TimedOut {
 			r.Inconc("%s: gate watchdog expired", caseID)
@@ -288,13 +295,48 @@ func c18Case(t *testing.T, v *vCore, r *kit.Result, rng *kit.Rand, caseID, wkind
 	}
 	// afterwards: nothing of the original token may remain (if any consuming request ran)
 	if unwrapAttempts > 0 || anyRevoke || len(newTokens) > 0 {
+		// A first-party unwrap hands the token's revocation to the expiration workers
+		// (deferred LazyRevoke), so teardown is asynchronous: wait (bounded, generous) until the
+		// token's lease record is gone - the last thing a completed revocation deletes - before
+		// scanning for residue. Not reached = inconclusive, never a violation.
+		leaseGone := false
+		for i := 0; i < 3000 && !leaseGone; i++ {
+			leaseGone = true
+			for _, k := range v.RawKeys("sys/expire/id/") {
+				if strings.HasSuffix(k, "/"+salted) {
+					leaseGone = false
+				}
+			}
+			if !leaseGone {
+				time.Sleep(5 * time.Millisecond)
+			}
+		}
+		if !leaseGone && (reveals > 0 || anyRevoke) {
+			r.Inconc("%s: lease of the consumed wrapping token still present after 15s (revocation worker did not finish)", caseID)
+			return sched, true
+		}
 		v.WaitQuiet(10*time.Millisecond, 2*time.Second)
 		// a late unwrap must fail
 		resp, err := v.Do(vReq{Op: logical.UpdateOperation, Path: "sys/wrapping/unwrap", Token: w.Token})
 		if vOK(resp, err) && c18Contains(resp, w.Canary) {
 			r.Violate("C18-payload-revealed-twice", caseID, "a late unwrap after the concurrent phase still obtained the payload", wit)
 		}
-		c18Residue(v, r, caseID, salted, cubby, accSalted, wit)
+		// F31 signature: a request's use-count write of the token record landed after the
+		// revoker had deleted that record (UseToken holds the per-token lock, revocation does
+		// not), leaving an unusable revocation-pending record without lease or payload.
+		f31 := false
+		if anyRevoke {
+			delAt := -1
+			for i, st := range sched.Steps {
+				if st.Op == "delete" && strings.HasSuffix(st.Key, "sys/token/id/"+salted) {
+					delAt = i
+				}
+				if delAt >= 0 && i > delAt && st.Op == "put" && strings.HasSuffix(st.Key, "sys/token/id/"+salted) {
+					f31 = true
+				}
+			}
+		}
+		c18Residue(v, r, caseID, salted, cubby, accSalted, wit, f31)
 	}
 	if sched.Overlap() {
 		r.Count("overlapping_schedules", 1)
@@ -404,7 +446,7 @@ func b2u18(b bool) uint64 {
 func TestVerif_C18_Schedules(t *testing.T) {
 	seed := kit.Seed(18)
 	shard, _ := kit.Shard()
-	r := kit.NewResult(t, "c18-schedules", seed, "k in 2..4 concurrent requests drawn from {first-party unwrap, third-party unwrap, rewrap, lookup, revoke, cubbyhole read} on one wrapping token under the storage-operation gate (gate points sys/token/*, sys/expire/*, logical/*): <=2-preemption interleavings (capped) then seeded PCT; exactly-once reveal counter and residue scan as in the sequential monitor; non-trivial = requests overlapped; distinct by (wrapped kind, request kinds, op-order hash)")
+	r := kit.NewResult(t, "c18-schedules", seed, "k in 2..4 concurrent requests drawn from {first-party unwrap, third-party unwrap, rewrap, lookup, revoke, cubbyhole read} on one wrapping token under the storage-operation gate (gate points: the wrapping token's id record, its lease and its cubbyhole keys): <=2-preemption interleavings (capped) then seeded PCT; exactly-once reveal counter and residue scan as in the sequential monitor; non-trivial = requests overlapped; distinct by (wrapped kind, request kinds, op-order hash)")
 	defer r.Write(t)
 	conc := []string{"unwrap-first", "unwrap-third", "rewrap", "lookup", "revoke", "cubbyhole-read"}
 	for _, tx := range []bool{false, true} {
@@ -433,7 +475,7 @@ func TestVerif_C18_Schedules(t *testing.T) {
 				kinds = []string{"cubbyhole-read", "unwrap-third", "lookup"}
 			}
 			wkind := []string{"kv", "login", "list"}[c%3]
-			ex := &kit.Explorer{MaxPreempt: 2, MaxRuns: kit.N(14, 80)}
+			ex := &kit.Explorer{MaxPreempt: 2, MaxRuns: kit.N(45, 200)}
 			idx := 0
 			stop := false
 			ex.Explore(func(pol kit.Policy) (kit.Schedule, bool) {
